@@ -52,6 +52,16 @@ def spaces(tier):
                 for h in itertools.product(range(2), repeat=n):
                     for f in itertools.product(range(2), repeat=n):
                         yield ("tb", g, h, f)
+        if q:
+            # four rows forming two groups of two (the smallest tables in which the ORDER of the groups matters for positional weights)
+            for g in itertools.product(range(2), repeat=4):
+                for h in itertools.product(range(2), repeat=4):
+                    cnt = {}
+                    for k in zip(g, h):
+                        cnt[k] = cnt.get(k, 0) + 1
+                    if sorted(cnt.values()) == [2, 2]:
+                        for f in itertools.product(range(2), repeat=4):
+                            yield ("tb", g, h, f)
 
     return [
         Space("one-group-column-one-feature", gen_one, "all tables of 2..4 (quick) / 2..5 (thorough) rows, group key in 3 keys, feature in 2 sequences; keys spelled as strings and ints; 4 weightings; 3 bases; bins in {edges, 0}", shards=64),
@@ -213,6 +223,16 @@ def _check_table(acc, case, spell, gcol, hcol, fcol, f2col):
                 fail("pc_conditional/%s" % ("weights" if w is not None else "uniform"), exp, r, note="weights=%r by=%r" % (w, byv))
                 return
             acc.ok(("pcc", wname, round(exp, 12) if exp == exp else None), nontrivial=nt)
+        if hcol is not None:
+            # the grouping columns in the caller's order, here not the alphabetical one: groups (and with them the positional
+            # weights) are ordered by (h, g)
+            acc.cls("grouping-columns-not-in-alphabetical-order")
+            exp_r = ref_conditional([(h_, g_) for g_, h_ in keys], rows, w)
+            r = acc.call(pyrepseq.pc_conditional, df, ["h", "g"], on, **({} if w is None else {"group_weights": w}))
+            if raised(r) or not feq(r, exp_r):
+                fail("pc_conditional/by-in-caller-order", exp_r, r, note="weights=%r by=['h','g']" % (w,))
+                return
+            acc.ok()
         if w is not None:
             wa = np.array(w, dtype=float)
             r = acc.call(pyrepseq.pc_conditional, df, by, on, group_weights=wa)
@@ -310,7 +330,7 @@ def _check_table(acc, case, spell, gcol, hcol, fcol, f2col):
         acc.ok()
     # ---- entropies
     pc_all = ref_pc(rows)
-    for base in (2.0, math.e, 10.0):
+    for base in (2.0, math.e, 10.0, 0.5):
         def ent(p):
             p = float(p)
             if p != p:
